@@ -97,6 +97,77 @@ theorem intOr0_eq (it : Val) : intOr0 it = (match it with | .sc (.int v) => v | 
   | arr => rfl
   | map => rfl
 
+/-! ### the enum table scan is "equal up to letter case" -/
+
+theorem toLowerC_eq (c : Nat) : toLowerC c = (if 65 ≤ c ∧ c ≤ 90 then c + 32 else c) := rfl
+
+theorem charsMatch_iff (r s : List Nat) (h : r.length = s.length) :
+    charsMatch r s = true ↔ Spec.foldCase r = Spec.foldCase s := by
+  induction r generalizing s with
+  | nil =>
+    cases s with
+    | nil => simp [charsMatch, Spec.foldCase]
+    | cons b bs => simp at h
+  | cons a as ih =>
+    cases s with
+    | nil => simp at h
+    | cons b bs =>
+      have hl : as.length = bs.length := by simpa using h
+      have ih' := ih bs hl
+      simp only [Spec.foldCase] at ih'
+      simp only [charsMatch, Spec.foldCase, List.map_cons, List.cons.injEq]
+      by_cases hc : toLowerC a = toLowerC b
+      · simp only [hc, bne_self_eq_false, Bool.false_eq_true, if_false]
+        rw [ih']
+        simp only [toLowerC] at hc
+        simp [hc]
+      · have hne : (toLowerC a != toLowerC b) = true := by simpa using hc
+        simp only [hne, if_true, Bool.false_eq_true, false_iff]
+        intro h'
+        exact hc h'.1
+
+theorem foldCase_length (s : List Nat) : (Spec.foldCase s).length = s.length := by simp [Spec.foldCase]
+
+/-- the code's scan (size test, then the characters through `tolower`) finds the first name that equals the string up to
+    letter case -/
+theorem findEnum_eq (names : List (List Nat)) (i : Nat) (s : List Nat) :
+    findEnum names i s = (names.findIdx? fun n => Spec.foldCase n == Spec.foldCase s).map (· + i) := by
+  induction names generalizing i with
+  | nil => rfl
+  | cons r rs ih =>
+    rw [List.findIdx?_cons]
+    simp only [findEnum]
+    by_cases hl : r.length = s.length
+    · have hl' : (r.length == s.length) = true := by simpa using hl
+      simp only [hl', if_true]
+      by_cases hm : charsMatch r s = true
+      · have := (charsMatch_iff r s hl).mp hm
+        simp [hm, this]
+      · have hf : ¬ Spec.foldCase r = Spec.foldCase s := fun h => hm ((charsMatch_iff r s hl).mpr h)
+        have hb : (Spec.foldCase r == Spec.foldCase s) = false := by simpa using hf
+        simp only [hm, Bool.false_eq_true, if_false, hb]
+        rw [ih (i + 1), Option.map_map]
+        congr 1
+        funext x
+        simp only [Function.comp]
+        omega
+    · have hl' : (r.length == s.length) = false := by simpa using hl
+      have hf : ¬ Spec.foldCase r = Spec.foldCase s := by
+        intro h
+        apply hl
+        rw [← foldCase_length r, ← foldCase_length s, h]
+      have hb : (Spec.foldCase r == Spec.foldCase s) = false := by simpa using hf
+      simp only [hl', Bool.false_eq_true, if_false, hb]
+      rw [ih (i + 1), Option.map_map]
+      congr 1
+      funext x
+      simp only [Function.comp]
+      omega
+
+theorem findEnum_registered (s : List Nat) : findEnum enumNames 0 s = Spec.registered s := by
+  rw [findEnum_eq]
+  simp [Spec.registered]
+
 theorem loadLeaf_view (k : Leaf) (v : Option Val) :
     (loadLeaf k v).1 = (Spec.leafView k v).1 ∧ seenLeaf (loadLeaf k v).2 = (Spec.leafView k v).2 ∧
     (loadLeaf k v).2 = Spec.leafState k v := by
@@ -104,7 +175,11 @@ theorem loadLeaf_view (k : Leaf) (v : Option Val) :
   | none => simp [loadLeaf, Spec.leafView, Spec.leafState, seenLeaf]
   | some v =>
     cases v with
-    | sc t => cases t <;> simp [loadLeaf, Spec.leafView, Spec.leafState, seenLeaf]
+    | sc t =>
+      cases t <;> simp [loadLeaf, Spec.leafView, Spec.leafState, seenLeaf]
+      all_goals
+        rw [findEnum_registered]
+        cases Spec.registered _ <;> simp
     | arr items =>
       simp [loadLeaf, Spec.leafView, Spec.leafState, seenLeaf]
       try exact fun a _ => intOr0_eq a
@@ -419,5 +494,339 @@ theorem run_failing (n : Nat) (l : List (String × List String)) (m : ErrMap)
           refine ⟨p', msg', rest', ?_, ?_⟩
           · rw [hidx]; simpa using h1
           · rw [h2, hidx]; simp
+
+/-! ### ThrowError: the trace up to the first mismatched value -/
+
+/-- what a list of visited fields with mismatch markers means: the reports of the fields before the first marker, and
+    whether there is a marker -/
+def cutTrace : List (Option Spec.Occ) → List (String × String) × Bool
+  | [] => ([], false)
+  | none :: _ => ([], true)
+  | some o :: r => (occTrace [o] ++ (cutTrace r).1, (cutTrace r).2)
+
+theorem cutTrace_append (a b : List (Option Spec.Occ)) :
+    cutTrace (a ++ b) = if (cutTrace a).2 then cutTrace a else ((cutTrace a).1 ++ (cutTrace b).1, (cutTrace b).2) := by
+  induction a with
+  | nil => simp [cutTrace]
+  | cons x a ih =>
+    cases x with
+    | none => simp [cutTrace]
+    | some o =>
+      simp only [List.cons_append, cutTrace, ih]
+      by_cases h : (cutTrace a).2 = true
+      · simp [h]
+      · simp [h]
+
+theorem cutTrace_snoc (a : List (Option Spec.Occ)) (o : Spec.Occ) :
+    cutTrace (a ++ [some o]) = if (cutTrace a).2 then cutTrace a else ((cutTrace a).1 ++ occTrace [o], false) := by
+  rw [cutTrace_append]
+  simp [cutTrace]
+
+theorem cutTrace_spec (l : List (Option Spec.Occ)) :
+    cutTrace l = (occTrace ((l.takeWhile Option.isSome).filterMap id), l.any Option.isNone) := by
+  induction l with
+  | nil => rfl
+  | cons x l ih =>
+    cases x with
+    | none => simp [cutTrace, occTrace_nil]
+    | some o =>
+      simp only [cutTrace, ih, List.takeWhile_cons, Option.isSome_some, if_true, List.filterMap_cons, id, List.any_cons,
+        Option.isNone_some, Bool.false_or]
+      rw [show o :: List.filterMap id (List.takeWhile Option.isSome l) = [o] ++ List.filterMap id (List.takeWhile Option.isSome l) from rfl,
+        occTrace_append]
+
+theorem leafThrows_eq (k : Leaf) (v : Option Val) : leafThrows k v = Spec.leafMismatch k v := by
+  cases v with
+  | none => cases k <;> rfl
+  | some v =>
+    have h := (loadLeaf_view k (some v)).1
+    cases k <;> cases v with
+    | sc t => cases t <;> simp [leafThrows, Spec.leafMismatch, notNil, Spec.isNil, h]
+    | arr items =>
+      simp [leafThrows, Spec.leafMismatch, notNil, Spec.isNil, h]
+      all_goals
+        refine congrArg (List.any items) (funext fun it => ?_)
+        cases it with
+        | sc t => cases t <;> rfl
+        | arr l => rfl
+        | map l => rfl
+    | map es => simp [leafThrows, Spec.leafMismatch, notNil, Spec.isNil, h]
+
+theorem flatCut_spec (pfx : String) (fields : List LeafField) (entries : List (Val × Val)) :
+    flatCut pfx fields entries = cutTrace (Spec.flatOccsT pfx fields entries) := by
+  induction fields with
+  | nil => rfl
+  | cons f fields ih =>
+    simp only [flatCut, Spec.flatOccsT, List.map_cons] at ih ⊢
+    rw [leafThrows_eq, lookup_eq]
+    by_cases hm : Spec.leafMismatch f.kind (Spec.valueAt entries f.key) = true
+    · simp [hm, cutTrace]
+    · obtain ⟨h1, h2, _⟩ := loadLeaf_view f.kind (Spec.valueAt entries f.key)
+      simp only [hm, Bool.false_eq_true, if_false, cutTrace]
+      rw [ih, visitArgs_eq, h1, h2]
+
+theorem vecCut_spec (pfx : String) (fields : List LeafField) (j : Nat) (items : List Val) :
+    vecCut pfx fields j items = cutTrace ((items.zipIdx j).flatMap fun it => match it.1 with
+      | .map es => Spec.flatOccsT (pfx ++ "/" ++ toString (it.2 + 1)) fields es
+      | .sc .nil => []
+      | _ => [none]) := by
+  induction items generalizing j with
+  | nil => rfl
+  | cons it items ih =>
+    simp only [vecCut, List.zipIdx_cons, List.flatMap_cons, cutTrace_append]
+    cases it with
+    | map es => simp only [flatCut_spec, ih (j + 1)]
+    | arr l => simp [cutTrace]
+    | sc t =>
+      cases t <;> simp [cutTrace]
+      exact ih (j + 1)
+
+theorem mapCut_spec (pfx : String) (fields : List LeafField) (es : List (Val × Val)) :
+    mapCut pfx fields es = cutTrace ((es.filter isStrKey).flatMap fun e => match e.1, e.2 with
+      | .sc (.str k), .map es' => Spec.flatOccsT (pfx ++ "/" ++ String.ofList (k.map Char.ofNat)) fields es'
+      | _, .sc .nil => []
+      | _, _ => [none]) := by
+  induction es with
+  | nil => rfl
+  | cons e es ih =>
+    obtain ⟨k, v⟩ := e
+    cases k with
+    | sc t =>
+      cases t with
+      | str s =>
+        simp only [mapCut, List.filter_cons, isStrKey, if_true, List.flatMap_cons, cutTrace_append]
+        cases v with
+        | map es' => simp only [flatCut_spec, ih]; rfl
+        | arr l => simp [cutTrace]
+        | sc t =>
+          cases t <;> simp [cutTrace]
+          exact ih
+      | nil => simpa [mapCut, isStrKey] using ih
+      | bool b => simpa [mapCut, isStrKey] using ih
+      | int b => simpa [mapCut, isStrKey] using ih
+      | flt b => simpa [mapCut, isStrKey] using ih
+      | bin b => simpa [mapCut, isStrKey] using ih
+      | arr b => simpa [mapCut, isStrKey] using ih
+      | map b => simpa [mapCut, isStrKey] using ih
+      | ext a b => simpa [mapCut, isStrKey] using ih
+      | ts a b => simpa [mapCut, isStrKey] using ih
+    | arr l => simpa [mapCut, isStrKey] using ih
+    | map l => simpa [mapCut, isStrKey] using ih
+
+theorem fieldCut_spec (f : Field) (v : Option Val) : fieldCut f v = cutTrace (Spec.fieldOccsT f v) := by
+  obtain ⟨key, kind, vs⟩ := f
+  cases kind with
+  | leaf k =>
+    simp only [fieldCut, Spec.fieldOccsT]
+    rw [leafThrows_eq]
+    by_cases hm : Spec.leafMismatch k v = true
+    · simp [hm, cutTrace]
+    · obtain ⟨h1, h2, _⟩ := loadLeaf_view k v
+      simp [hm, cutTrace, visitArgs_eq, h1, h2]
+  | obj fields =>
+    cases v with
+    | none => simp [fieldCut, Spec.fieldOccsT, cutTrace, visitArgs_eq]
+    | some v =>
+      cases v with
+      | sc t => cases t <;> simp [fieldCut, Spec.fieldOccsT, cutTrace, visitArgs_eq, notNil, Spec.isNil]
+      | arr l => simp [fieldCut, Spec.fieldOccsT, cutTrace, notNil, Spec.isNil]
+      | map es => simp only [fieldCut, Spec.fieldOccsT, cutTrace_snoc, flatCut_spec, visitArgs_eq]
+  | vecObj fields =>
+    cases v with
+    | none => simp [fieldCut, Spec.fieldOccsT, cutTrace, visitArgs_eq]
+    | some v =>
+      cases v with
+      | sc t => cases t <;> simp [fieldCut, Spec.fieldOccsT, cutTrace, visitArgs_eq, notNil, Spec.isNil]
+      | map l => simp [fieldCut, Spec.fieldOccsT, cutTrace, notNil, Spec.isNil]
+      | arr items =>
+        simp only [fieldCut, Spec.fieldOccsT, cutTrace_snoc, vecCut_spec, visitArgs_eq]
+        rfl
+  | mapObj fields =>
+    cases v with
+    | none => simp [fieldCut, Spec.fieldOccsT, cutTrace, visitArgs_eq]
+    | some v =>
+      cases v with
+      | sc t => cases t <;> simp [fieldCut, Spec.fieldOccsT, cutTrace, visitArgs_eq, notNil, Spec.isNil]
+      | arr l => simp [fieldCut, Spec.fieldOccsT, cutTrace, notNil, Spec.isNil]
+      | map es =>
+        simp only [fieldCut, Spec.fieldOccsT, cutTrace_snoc, mapCut_spec, visitArgs_eq]
+        rfl
+
+theorem rootCut_spec (cls : List Field) (es : List (Val × Val)) : rootCut cls es = cutTrace (Spec.occsT cls (.map es)) := by
+  induction cls with
+  | nil => rfl
+  | cons f cls ih =>
+    simp only [Spec.occsT, List.flatMap_cons] at ih ⊢
+    simp only [rootCut, cutTrace_append, fieldCut_spec, lookup_eq, ih]
+
+theorem failingOf_msgs_ne_nil (os : List Spec.Occ) : ∀ e ∈ Spec.failingOf os, e.2 ≠ [] := by
+  intro e he
+  simp only [Spec.failingOf, List.mem_filterMap] at he
+  obtain ⟨o, _, ho⟩ := he
+  split at ho
+  · simp at ho
+  · rename_i h
+    simp only [Option.some.injEq] at ho
+    rw [← ho]
+    simpa using h
+
+/-- the trace up to the first mismatched value is what the validators of the fields before it report -/
+theorem rootCut_failingBefore (cls : List Field) (es : List (Val × Val)) :
+    (rootCut cls es).1 = flattenFailing (Spec.failingBefore cls (.map es)) ∧
+    (rootCut cls es).2 = Spec.hasMismatch cls (.map es) := by
+  rw [rootCut_spec, cutTrace_spec]
+  exact ⟨(flatten_failing _).symm, rfl⟩
+
+/-! ### the two descriptions of the visited fields agree on documents without a mismatched value -/
+
+theorem flatOccsT_clean (pfx : String) (fields : List LeafField) (es : List (Val × Val))
+    (h : (Spec.flatOccsT pfx fields es).all Option.isSome = true) :
+    Spec.flatOccsT pfx fields es = (Spec.flatOccs pfx fields es).map some := by
+  induction fields with
+  | nil => rfl
+  | cons f fields ih =>
+    simp only [Spec.flatOccsT, Spec.flatOccs, List.map_cons, List.all_cons, Bool.and_eq_true] at h ih ⊢
+    rw [ih h.2]
+    by_cases hm : Spec.leafMismatch f.kind (Spec.valueAt es f.key) = true
+    · simp [hm] at h
+    · simp [hm]
+
+theorem all_append_isSome (a b : List (Option Spec.Occ)) :
+    (a ++ b).all Option.isSome = true ↔ a.all Option.isSome = true ∧ b.all Option.isSome = true := by
+  simp [List.all_append]
+
+theorem vecOccsT_clean (pfx : String) (fields : List LeafField) (j : Nat) (items : List Val)
+    (h : ((items.zipIdx j).flatMap fun it => match it.1 with
+      | .map es => Spec.flatOccsT (pfx ++ "/" ++ toString (it.2 + 1)) fields es
+      | .sc .nil => []
+      | _ => [none]).all Option.isSome = true) :
+    ((items.zipIdx j).flatMap fun it => match it.1 with
+      | .map es => Spec.flatOccsT (pfx ++ "/" ++ toString (it.2 + 1)) fields es
+      | .sc .nil => []
+      | _ => [none])
+    = ((items.zipIdx j).flatMap fun it => match it.1 with
+      | .map es => Spec.flatOccs (pfx ++ "/" ++ toString (it.2 + 1)) fields es
+      | _ => []).map some := by
+  induction items generalizing j with
+  | nil => rfl
+  | cons it items ih =>
+    simp only [List.zipIdx_cons, List.flatMap_cons, all_append_isSome, List.map_append] at h ⊢
+    rw [ih (j + 1) h.2]
+    congr 1
+    cases it with
+    | map es => exact flatOccsT_clean _ fields es h.1
+    | arr l => simp at h
+    | sc t => cases t <;> simp at h ⊢
+
+theorem mapOccsT_clean (pfx : String) (fields : List LeafField) (es : List (Val × Val))
+    (h : (es.flatMap fun e => match e.1, e.2 with
+      | .sc (.str k), .map es' => Spec.flatOccsT (pfx ++ "/" ++ String.ofList (k.map Char.ofNat)) fields es'
+      | _, .sc .nil => []
+      | _, _ => [none]).all Option.isSome = true) :
+    (es.flatMap fun e => match e.1, e.2 with
+      | .sc (.str k), .map es' => Spec.flatOccsT (pfx ++ "/" ++ String.ofList (k.map Char.ofNat)) fields es'
+      | _, .sc .nil => []
+      | _, _ => [none])
+    = (es.flatMap fun e => match e.1, e.2 with
+      | .sc (.str k), .map es' => Spec.flatOccs (pfx ++ "/" ++ String.ofList (k.map Char.ofNat)) fields es'
+      | _, _ => []).map some := by
+  induction es with
+  | nil => rfl
+  | cons e es ih =>
+    simp only [List.flatMap_cons, all_append_isSome, List.map_append] at h ⊢
+    rw [ih h.2]
+    congr 1
+    obtain ⟨k, v⟩ := e
+    cases v with
+    | map es' =>
+      cases k with
+      | sc t => cases t <;> first | exact flatOccsT_clean _ fields es' h.1 | simp at h
+      | arr l => simp at h
+      | map l => simp at h
+    | arr l => simp at h
+    | sc t =>
+      cases t <;> first | (simp at h; done) | skip
+      cases k with
+      | sc t => cases t <;> simp
+      | arr l => simp
+      | map l => simp
+
+theorem fieldOccsT_clean (f : Field) (v : Option Val) (h : (Spec.fieldOccsT f v).all Option.isSome = true) :
+    Spec.fieldOccsT f v = (Spec.fieldOccs f v).map some := by
+  obtain ⟨key, kind, vs⟩ := f
+  cases kind with
+  | leaf k =>
+    simp only [Spec.fieldOccsT, Spec.fieldOccs] at h ⊢
+    by_cases hm : Spec.leafMismatch k v = true
+    · simp [hm] at h
+    · simp [hm]
+  | obj fields =>
+    cases v with
+    | none => simp [Spec.fieldOccsT, Spec.fieldOccs]
+    | some v =>
+      cases v with
+      | sc t => cases t <;> simp [Spec.fieldOccsT, Spec.fieldOccs, Spec.isNil] at h ⊢
+      | arr l => simp [Spec.fieldOccsT, Spec.isNil] at h
+      | map es =>
+        simp only [Spec.fieldOccsT, Spec.fieldOccs, all_append_isSome, List.map_append] at h ⊢
+        rw [flatOccsT_clean _ fields es h.1]
+        rfl
+  | vecObj fields =>
+    cases v with
+    | none => simp [Spec.fieldOccsT, Spec.fieldOccs]
+    | some v =>
+      cases v with
+      | sc t => cases t <;> simp [Spec.fieldOccsT, Spec.fieldOccs, Spec.isNil] at h ⊢
+      | map l => simp [Spec.fieldOccsT, Spec.isNil] at h
+      | arr items =>
+        simp only [Spec.fieldOccsT, Spec.fieldOccs, all_append_isSome, List.map_append] at h ⊢
+        congr 1
+        exact vecOccsT_clean _ fields 0 items h.1
+  | mapObj fields =>
+    cases v with
+    | none => simp [Spec.fieldOccsT, Spec.fieldOccs]
+    | some v =>
+      cases v with
+      | sc t => cases t <;> simp [Spec.fieldOccsT, Spec.fieldOccs, Spec.isNil] at h ⊢
+      | arr l => simp [Spec.fieldOccsT, Spec.isNil] at h
+      | map es =>
+        simp only [Spec.fieldOccsT, Spec.fieldOccs, all_append_isSome, List.map_append] at h ⊢
+        congr 1
+        exact mapOccsT_clean _ fields _ h.1
+
+theorem any_isNone_false (l : List (Option Spec.Occ)) : l.any Option.isNone = false ↔ l.all Option.isSome = true := by
+  induction l with
+  | nil => simp
+  | cons x l ih => cases x <;> simp [ih]
+
+/-- a document without a mismatched value: the ThrowError description of the visited fields is the Skip description -/
+theorem occsT_clean (cls : List Field) (doc : Val) (h : Spec.hasMismatch cls doc = false) :
+    Spec.occsT cls doc = (Spec.occs cls doc).map some := by
+  rw [Spec.hasMismatch, any_isNone_false] at h
+  cases doc with
+  | sc t => cases t <;> simp [Spec.occsT, Spec.occs, Spec.isNil] at h ⊢
+  | arr l => simp [Spec.occsT, Spec.isNil] at h
+  | map es =>
+    simp only [Spec.occsT, Spec.occs] at h ⊢
+    induction cls with
+    | nil => rfl
+    | cons f cls ih =>
+      simp only [List.flatMap_cons, all_append_isSome, List.map_append] at h ⊢
+      rw [ih h.2, fieldOccsT_clean f _ h.1]
+
+theorem failingBefore_clean (cls : List Field) (doc : Val) (h : Spec.hasMismatch cls doc = false) :
+    Spec.failingBefore cls doc = Spec.failing cls doc := by
+  have hall : (Spec.occsT cls doc).all Option.isSome = true := by
+    rw [Spec.hasMismatch, any_isNone_false] at h; exact h
+  have htw : ∀ l : List (Option Spec.Occ), l.all Option.isSome = true → l.takeWhile Option.isSome = l := by
+    intro l hl
+    induction l with
+    | nil => rfl
+    | cons x l ih =>
+      simp only [List.all_cons, Bool.and_eq_true] at hl
+      simp [hl.1, ih hl.2]
+  simp only [Spec.failingBefore, Spec.beforeMismatch, Spec.failing, Spec.failingOf]
+  rw [htw _ hall, occsT_clean cls doc h]
+  simp [List.filterMap_map]
 
 end BSVerif.Valid
